@@ -307,7 +307,8 @@ def run(F, rep, tier):
     if not ident:
         rep.violation(r4, "coerced:identity", "coerced has no path returning the value itself (actual_value.clone())", FILE)
     for d, cond, line in ident:
-        others = [c for c in cond if not (c[2] is True and c[0] and c[0][0] == "call" and (c[0][1] or "").endswith("FeelType::is_conformant"))]
+        others = [c for c in cond if not (c[2] is True and c[0] and c[0][0] == "call" and (c[0][1] or "").endswith("FeelType::is_conformant"))
+                  and not (c[2] is True and c[1] == ())]          # an arm whose pattern names no constructor (`_ if ..`) tests nothing
         if others:
             rep.violation(r4, "coerced:identity-first", "the value itself is returned only after other coercion rules were tried (conditions before it: %s): a conforming value that also matches "
                           "a wrap / unwrap rule is changed, and coercing twice is not idempotent" % [str(c[0])[:60] for c in others][:3], "%s:%s" % (FILE, line))
@@ -326,7 +327,14 @@ def run(F, rep, tier):
                           "must be returned unchanged before any wrap / unwrap rule is considered" % (describe(d), line), "%s:%s" % (FILE, line))
     # tail expression of coerced must be null
     tail = coe["body"]["b"].get("e")
-    if tail is not None and fl.desc(tail, {}) != ("null",):
+    if tail is not None and strip(tail).get("k") in ("Match", "If"):
+        # the rules are the arms of one branching tail expression: every arm is a return judged above, a non-null one needs its conformance test
+        nulls = [1 for d, cond, line in outs if d == ("null",)]
+        if nulls:
+            rep.ok(r4, "coerced:tail", "the tail is a branching expression whose remaining arms answer null")
+        else:
+            rep.violation(r4, "coerced:tail", "no arm of coerced's tail expression answers null", FILE)
+    elif tail is not None and fl.desc(tail, {}) != ("null",):
         rep.violation(r4, "coerced:tail", "coerced's fall-through result is not null", FILE)
     else:
         rep.ok(r4, "coerced:tail", "falls through to null")
